@@ -395,8 +395,10 @@ spif_str_append(spif_str_t self, spif_str_t other)
         }
         self->size += other->size - 1;
         self->s = (spif_charptr_t) REALLOC(self->s, self->size);
-        memcpy(self->s + self->len, SPIF_STR_STR(other), other->len + 1);
+        /* The terminator is written separately:  when other is self its NUL sits exactly where the copy starts. */
+        memcpy(self->s + self->len, SPIF_STR_STR(other), other->len);
         self->len += other->len;
+        self->s[self->len] = 0;
     }
     return TRUE;
 }
